@@ -198,8 +198,18 @@ def c19_2(ctx: Ctx) -> RuleResult:
             elif isinstance(t, ast.Subscript) and _is_reg(ctx, add, t.value, reg):
                 replace_stores.append(n)
     stores = item_stores + replace_stores
+    def dup_says(lits):
+        """True: the name is already registered; False: it is not; None: not tested on this path"""
+        for a_, p_ in lits:
+            if a_[0] == "cmp" and a_[1] in ("in", "not in") and _term_is_subreg(a_[3], reg):
+                return p_ if a_[1] == "in" else not p_
+        return None
+
+    raises_dup = any(CONFIG_ERR == cfg._exc_qual(r_.exc) and dup_says(lits_at(add, r_)) is True for r_ in nodes_in(add, ast.Raise) if r_.exc is not None)
     for s_ in stores:
-        ok = bool(dup_tests) and all(any(cfg.dominates(d, sn) for d in dup_tests) for sn in cfg.node_containing(s_))
+        # dominated by the raising test, or (the same thing written positively) reached only where the name is not registered
+        ok = (bool(dup_tests) and all(any(cfg.dominates(d, sn) for d in dup_tests) for sn in cfg.node_containing(s_))) or \
+            (raises_dup and dup_says(lits_at(add, s_)) is False)
         res.add(add, s_, "the duplicate-name test (raising ConfigError) precedes every registry store", ok,
                 "" if ok else "a plug-in can be registered without the duplicate check: an existing name is silently replaced", construct=f"add_plugin: {norm_stmt(s_)[:60]}")
     # prioritised insertion: a new dict starting with the new name, then the old registry in its order;
